@@ -1,9 +1,160 @@
 import Driver.Json
-open Lean Drv
+import Model.Msm
+open Lean Drv Ens Ens.Counts Ens.Msm
 
 namespace Drv.C16
 
-def handle (op : String) (_req : Json) : Except String Json :=
-  throw s!"bad-op C16.{op}"
+def errStr : Msm.Err → String
+  | .dataInvalid => "data-invalid"
+  | .valueError => "value-error"
+  | .indexError => "index-error"
+  | .attributeError => "attribute-error"
+  | .assertion => "assertion"
+  | .stage => "stage"
+  | .codec => "codec"
+  | .nan => "nan"
+
+def dictJson (d : Dict) : Json := listJson (fun p => Json.arr #[intJson p.1, intJson p.2]) d
+def matJson (m : List (List Rat)) : Json := listJson (listJson ratJson) m
+
+def getCx (j : Json) : Except String Cx := do
+  match j with
+  | .arr #[a, b] => pure ⟨← getRat a, ← getRat b⟩
+  | _ => throw "complex = [re, im]"
+
+def fnOfList (l : List Rat) : Nat → Rat := fun i => l.getD i 0
+def fnOfMat (m : List (List Rat)) : Nat → Nat → Rat := fun i j => (m.getD i []).getD j 0
+
+/-- run `mkMSM … >>= fit` for one builder instance and render the result -/
+def runFit {C T P : Type} (builder : Builder C T P) (nm : String) (byName : Bool)
+    (lag : Int) (trim sliding : Bool) (maxN : Option Nat) (trimF : Trimmer) (rows : List (List Int))
+    (render : Fit C T P → Json) : Json :=
+  let table : String → Option (Builder C T P) := fun s => if s = nm then some builder else none
+  let arg : MethodArg (Builder C T P) := if byName then .name nm else .callable builder
+  match (do let m ← mkMSM table lag arg trim sliding maxN
+            let f ← m.fit trimF rows
+            pure (m, f)) with
+  | .error e => errJson (errStr e)
+  | .ok (m, f) => okJson (Json.mkObj [
+      ("mapping", dictJson f.mapping.toOriginal),
+      ("stored", Json.mkObj [("lag_time", intJson m.lagTime), ("trim", Json.bool m.trim),
+                             ("sliding_window", Json.bool m.slidingWindow),
+                             ("max_n_states", optJson natJson m.maxNStates)]),
+      ("fit", render f)])
+
+def idCodec (α : Type) : Codec α α := { enc := fun a => pure a, dec := fun a => pure a }
+
+def handle (op : String) (req : Json) : Except String Json := do
+  match op with
+  | "fit" =>
+    let rows ← getList (getList getInt) (← field req "rows")
+    let lag ← getInt (← field req "lag")
+    let sl ← getBool (← field req "sliding")
+    let trim ← getBool (← field req "trim")
+    let byName ← getBool (← field req "by_name")
+    let meth ← getStr (← field req "method")
+    let maxN ← match fieldOpt req "max_n" with
+      | none => pure none
+      | some j => do let n ← getNat j; pure (some n)
+    let keep ← match fieldOpt req "keep" with
+      | none => pure []
+      | some j => getList getNat j
+    let trimF : Trimmer := trimTo keep
+    match meth with
+    | "normalize" =>
+      pure (runFit normalizeQ meth byName lag trim sl maxN trimF rows fun f =>
+        Json.mkObj [("tcounts", matJson f.tcounts), ("tprobs", matJson f.tprobs)])
+    | "transpose" =>
+      pure (runFit transposeQ meth byName lag trim sl maxN trimF rows fun f =>
+        Json.mkObj [("tcounts", matJson f.tcounts), ("tprobs", matJson f.tprobs),
+                    ("eq", listJson (optJson ratJson) f.eqProbs)])
+    | "counts" =>
+      pure (runFit countsOnly meth byName lag trim sl maxN trimF rows fun f =>
+        Json.mkObj [("tcounts", matJson f.tcounts)])
+    | "missing" =>
+      -- a name that is not in the builders table
+      match mkMSM (F := Builder Unit Unit Unit) (fun _ => none) lag (.name meth) trim sl maxN with
+      | .error e => pure (errJson (errStr e))
+      | .ok _ => pure (okJson Json.null)
+    | _ => throw s!"bad-method {meth}"
+  | "mapping" =>
+    -- pairs = (original, trimmed) as given to the constructor
+    let ps ← getList (fun j => do
+      match j with
+      | .arr #[a, b] => pure ((← getInt a), (← getInt b))
+      | _ => throw "pair") (← field req "pairs")
+    let m := TrimMapping.ofTransformations ps
+    let csv := m.write toString
+    match TrimMapping.read String.toInt? csv with
+    | .error e => pure (errJson (errStr e))
+    | .ok m' => pure (okJson (Json.mkObj [
+        ("to_original", dictJson m.toOriginal),
+        ("to_mapped", dictJson m.toMapped),
+        ("csv", listJson (listJson Json.str) csv),
+        ("read", dictJson m'.toOriginal),
+        ("eq", Json.bool (m'.beq m))]))
+  | "readcsv" =>
+    let csv ← getList (getList getStr) (← field req "csv")
+    match TrimMapping.read String.toInt? csv with
+    | .error e => pure (errJson (errStr e))
+    | .ok m' => pure (okJson (dictJson m'.toOriginal))
+  | "saveload" =>
+    let lag ← getInt (← field req "lag")
+    let sl ← getBool (← field req "sliding")
+    let trim ← getBool (← field req "trim")
+    let meth ← getStr (← field req "method")
+    let maxN ← match fieldOpt req "max_n" with
+      | none => pure none
+      | some j => do let n ← getNat j; pure (some n)
+    let ps ← getList (fun j => do
+      match j with
+      | .arr #[a, b] => pure ((← getInt a), (← getInt b))
+      | _ => throw "pair") (← field req "pairs")
+    let cd : Codecs String Unit Unit Unit (Config String) Unit Unit Unit :=
+      { config := idCodec _, tcounts := idCodec _, tprobs := idCodec _, eqProbs := idCodec _,
+        print := toString, parse := String.toInt? }
+    match (do let m ← mkMSM (fun _ => none) lag (.callable meth) trim sl maxN
+              let fitted : Fitted String Unit Unit Unit :=
+                { msm := m, fit := { mapping := TrimMapping.ofTransformations ps,
+                                     tcounts := (), tprobs := (), eqProbs := () } }
+              let s ← save cd fitted
+              let l ← load cd s
+              pure (fitted, l)) with
+    | .error e => pure (errJson (errStr e))
+    | .ok (a, b) => pure (okJson (Json.mkObj [
+        ("lag_time", intJson b.msm.lagTime), ("trim", Json.bool b.msm.trim),
+        ("sliding_window", Json.bool b.msm.slidingWindow), ("method", Json.str b.msm.method),
+        ("max_n_states", optJson natJson b.msm.maxNStates),
+        ("mapping", dictJson b.fit.mapping.toOriginal),
+        ("mapping_eq", Json.bool (b.fit.mapping.beq a.fit.mapping))]))
+  | "eigpost" =>
+    let n ← getNat (← field req "n")
+    let nEigs ← match fieldOpt req "n_eigs" with
+      | none => pure none
+      | some j => do let k ← getInt j; pure (some k)
+    let vals ← getList getCx (← field req "vals")
+    let cols ← getList (getList getCx) (← field req "cols")
+    match (do let k ← resolveNEigs n nEigs
+              eigPost k vals cols) with
+    | .error e => pure (errJson (errStr e))
+    | .ok (v, c) => pure (okJson (Json.mkObj [
+        ("vals", listJson ratJson v), ("cols", matJson c),
+        ("order", listJson natJson (argsortDesc vals))]))
+  | "ntimes" =>
+    let ns ← getNat (← field req "n_states")
+    let nt ← match fieldOpt req "n_times" with
+      | none => pure none
+      | some j => do let k ← getNat j; pure (some k)
+    pure (okJson (natJson (impNTimes ns nt)))
+  | "ensemble" =>
+    let T ← getList (getList getRat) (← field req "T")
+    let p ← getList getRat (← field req "p")
+    let steps ← getInt (← field req "n_steps")
+    let n := p.length
+    let (last, obs) := syntheticEnsemble n (fnOfMat T) (fnOfList p) steps
+    pure (okJson (Json.mkObj [
+      ("p", listJson ratJson (tabulate n last)),
+      ("obs", listJson (fun o => listJson ratJson (tabulate n o)) obs)]))
+  | _ => throw s!"bad-op C16.{op}"
 
 end Drv.C16
